@@ -222,7 +222,8 @@ def baseFunctions : List String :=
 
 def isFun (f : String) : Bool := baseFunctions.contains f
 
-def strictFn (f : String) : Bool := f == "size"
+/-- base functions that are NOT error-strict (measured): `type`, `string`, `contains` -/
+def strictFn (f : String) : Bool := !(f == "type" || f == "string" || f == "contains")
 
 def sem : Sem := { prim := prim, isFun := isFun, strictFn := strictFn, iter := iterV, toBool := boolTypeOf }
 
